@@ -15,8 +15,18 @@ IMPORTS = {
 }
 
 
+PKG_ROOT = os.path.join(vlib.HARNESS, "overlay_pkg")
+
+
 def base_replace():
     rep = {}
+    # accessor files added to existing packages of the repository (all //go:build verif)
+    if os.path.isdir(PKG_ROOT):
+        for pkg in sorted(os.listdir(PKG_ROOT)):
+            d = os.path.join(PKG_ROOT, pkg)
+            for f in sorted(os.listdir(d)):
+                if f.endswith(".go"):
+                    rep[os.path.join(vlib.REPO, pkg, f)] = os.path.join(d, f)
     for pkg in sorted(os.listdir(SHIM_ROOT)):
         d = os.path.join(SHIM_ROOT, pkg)
         for f in sorted(os.listdir(d)):
